@@ -190,14 +190,16 @@ def c02(run):
 
 
 def c04(run):
-    return generic_check(run, [("MC_map_w2fault.cfg", "MC_map.tla", {"timeout": 400})], [],
+    return generic_check(run, [("MC_map_w2fault.cfg", "MC_map.tla", {"timeout": 400}), ("MC_table_w2fault.cfg", "MC_table.tla", {"timeout": 300, "workers": 6}),
+                               ("MC_set_w2fault.cfg", "MC_set.tla", {"timeout": 400, "workers": 6})], [],
         [("fault", ["map:kv16:collide:20:1300:fault:fault=30,plan2=fewpos", "map:k4v4:zero:14:700:fault:fault=30,plan2=collide"]),
          ("fault2", ["set:k8t:collide:20:600:setalg:fault=25,plan2=mixed", "table:te24:zero:14:600:table:fault=25", "map:kv24:onegroup:12:500:fault:fault=30"]),
          ("faultbh", ["map:kv16:collide:20:800:two:fault=60,fclass=bh_clone,plan2=fewpos", "set:k8t:zero:14:500:setalg:fault=50,fclass=bh_clone,plan2=collide"])],
         [("fault3", ["map:kv16:collide:20:5000:fault:fault=30,plan2=fewpos", "map:k8v4:max:20:3000:fault:fault=35", "map:kv200:fewpos:24:2000:fault:fault=30"]),
          ("fault4", ["set:k8t:zero:14:3000:set:fault=25", "table:te208:collide:20:3000:table:fault=25", "map:kv16:collide:20:2000:two:fault=40,fclass=bh_clone,plan2=fewpos"]),
          ("faultg", ["map:kv16:collide:20:3000:fault:fault=30,plan2=fewpos", "map:k4v4:zero:14:2000:fault:fault=30"], G)],
-        "model: every reachable small-scope state x operation x k-th hasher invocation panics (scope guards as written in the code); "
+        "model: every reachable small-scope state x operation x k-th hasher invocation panics (scope guards as written in the code), for HashMap, "
+        "HashTable (re-hash closure) and HashSet (incl. the assigning operators); "
         "code: random fault injection (Hash, Eq, Clone, Drop, BuildHasher::clone) at the k-th invocation and generated behaviours whose growing / "
         "in-place-rehashing call panics at the k-th hasher invocation; post-unwind state validated", fault_corpus=True)
 
